@@ -10,7 +10,9 @@ seeds = {}
 for m in glob.glob(os.path.join(VERIF, "seeded/*/meta.json")):
     j = json.load(open(m)); seeds["seed-" + j["id"]] = j
 rows_seed, rows_rev, by_prop = [], [], {}
-for name, status, detail, expected in d["results"]:
+for row in d["results"]:
+    name, status, detail = row[0], row[1], row[2]
+    expected = row[3] if len(row) > 3 else {}
     fired = sorted(set(re.findall(r"fired=([A-Za-z0-9.+;]*)", detail)))
     fired = "+".join(sorted(set(x for f in fired for x in re.split(r"[+;]", f) if x)))
     props = ",".join(sorted(expected.keys())) if isinstance(expected, dict) else ""
